@@ -111,8 +111,9 @@ LATE_KEYS = ('bytes', 'hash', 'count_of_rows')
 
 def strip_late(desc):
     """Dumpers fill bytes/hash/count_of_rows into their descriptor while the stream is consumed; steps
-    downstream hold a copy taken at package time. These late-filled counters are statistics (not
-    compared, like stats): they are removed before descriptors are compared."""
+    downstream hold a copy taken at package time. These late-filled properties are compared on their own
+    (Outcome.late; a difference is the recorded finding 'dumper-late-counters-not-downstream'), so that every
+    OTHER difference between two evaluation strategies is still reported."""
     desc = copy.deepcopy(desc)
     for k in LATE_KEYS:
         desc.pop(k, None)
